@@ -195,6 +195,22 @@ def subs_oracle(ix: Index, scn: dict) -> list[Violation]:
             want_audio = [bytes(m.data) for seq, turn, t, name, m in msgs if name == "VoiceAssistantAudio" and not m.end and active(s, seq)] if s["args"].get("audio", True) else []
             if audio != want_audio:
                 out.append(Violation("callback-count", "voice-audio", f"{tag}: {len(audio)} audio callbacks, expected {len(want_audio)}"))
+            # handlers are entered in the order their messages arrived, whatever their kind (a stop that preceded the next
+            # start is handled before it, also when both came in one read)
+            entered = [g[1] for g in got if g[1] in ("cb_va_start", "cb_va_stop", "cb_va_audio", "cb_va_announce")]
+            want_order = []
+            for seq, turn, t, name, m in msgs:
+                if not active(s, seq):
+                    continue
+                if name == "VoiceAssistantRequest":
+                    want_order.append("cb_va_start" if m.start else "cb_va_stop")
+                elif name == "VoiceAssistantAudio" and s["args"].get("audio", True):
+                    want_order.append("cb_va_stop" if m.end else "cb_va_audio")
+                elif name == "VoiceAssistantAnnounceFinished" and s["args"].get("announce", True):
+                    want_order.append("cb_va_announce")
+            if sorted(entered) == sorted(want_order) and entered != want_order:
+                k = next(j for j, (a, b) in enumerate(zip(entered, want_order)) if a != b)
+                out.append(Violation("voice-order", "", f"{tag}: voice handlers entered as {entered[max(0, k - 2): k + 3]} but the messages arrived as {want_order[max(0, k - 2): k + 3]} (position {k})"))
             # each finished start is answered with the port (or an error response)
             done = [g for g in got if g[1] == "cb_va_start_done"]
             resp = []
